@@ -162,6 +162,7 @@ def _values(case, count):
 
 _SHARED = {}
 NUMPY_OUTSIDE = [0]
+VIA_AUTO = [0]
 
 
 def _downscaler(case):
@@ -177,7 +178,8 @@ def _downscaler(case):
 
 
 def worker_obs():
-    return {"outside_values_given_as_numpy_scalars": NUMPY_OUTSIDE[0]}
+    return {"outside_values_given_as_numpy_scalars": NUMPY_OUTSIDE[0],
+            "downscalers_chosen_by_the_auto_method": VIA_AUTO[0]}
 
 
 def _fresh_downscaler(case):
@@ -199,7 +201,18 @@ def _fresh_downscaler(case):
                         break
                 except (OverflowError, ValueError):
                     continue
+        if case["vseed"] % 3 == 0:
+            # the default method "auto" picks the averaging method for image datasets and
+            # hands it the same options (the way compute-scales is run without
+            # --downscaling-method)
+            VIA_AUTO[0] += 1
+            return downscaling.get_downscaler("auto", {"type": "image"},
+                                              {"outside_value": ov})
         return downscaling.get_downscaler("average", options={"outside_value": ov})
+    if m == "stride" and case["vseed"] % 3 == 0:
+        VIA_AUTO[0] += 1
+        return downscaling.get_downscaler("auto", {"type": "segmentation"},
+                                          {"outside_value": 7.0})
     return downscaling.get_downscaler(m)
 
 
@@ -438,6 +451,8 @@ def gates(obs, tier):
         "unsupported_probes_run": obs.get("unsupported_probes", 0) >= 10,
         "arrays_beyond_64_per_axis": obs.get("large_arrays", 0) > 0,
         "arrays_beyond_2_20_voxels": obs.get("huge_arrays", 0) > 0,
+        "downscalers_chosen_by_the_auto_method": obs.get(
+            "downscalers_chosen_by_the_auto_method", 0) > 20,
         "outside_values_given_as_numpy_scalars": obs.get(
             "outside_values_given_as_numpy_scalars", 0) > 20,
         "blocks_containing_nan": obs.get("blocks_with_nan", 0) > 100,
